@@ -33,7 +33,7 @@ type C11Case struct {
 	AbortAt   int             `json:"abort_at"` // -1: the server sends everything, then closes
 	Receives  int             `json:"receives"`
 	API       string          `json:"api,omitempty"` // "" = Send + receive | "upgrade" = Upgrade + its receive (flags must be Upgrade) | "call" = Connection.Call (flags 0)
-	Transport string          `json:"transport"` // pipe | unix
+	Transport string          `json:"transport"`     // pipe | unix
 	Origin    string          `json:"origin,omitempty"`
 }
 
